@@ -824,3 +824,19 @@ Proof.
   - split; [exact D3|]. split; [exact T3|]. split; [rewrite N3; cbn [st2 rt_set_now rs_now]; rewrite N1; reflexivity|].
     split; [exact Inf|exact Le].
 Qed.
+
+(* A Confirmable that is accepted at the start of a prepare call - an Observe notification that
+   coap_check_notify generates inside coap_io_prepare_io - is in the queue when that call's loop
+   and wait computation run: the wait reported by THAT call is computed from a queue that contains
+   it (rt_wait_ok on the final state: 0 only if nothing is pending, never past the earliest
+   deadline). *)
+Theorem rt_wait_after_accept : forall st s m b cfg r,
+  rt_tinv st -> 1 <= rc_max cfg <= 255 ->
+  let st1 := fst (rt_send st s m b cfg r) in
+  let (st', o) := rt_tick st1 in
+  exists o' w hd, o = o' ++ [RoWait (rs_now st1) w hd] /\ ~ In RoFuel o' /\
+                  rs_now st' = rs_now st1 /\ rt_wait_ok st' w hd.
+Proof.
+  intros st s m b cfg r T Hm st1. apply rt_tick_wait_sound.
+  exact (proj1 (rt_step_tinv st (RtSend s m b cfg r) Hm T)).
+Qed.
